@@ -91,6 +91,7 @@ def gen_reader_cases(ctx, n_streams):
     for tail in [[huge[255:]], [huge[255:256] + small], [bytes([b]) for b in huge[255:]]]:
         directed.append(('rtursp', [small + huge[:255]] + tail))
         directed.append(('rtursp', [small, huge[:100], huge[100:255]] + tail))
+    directed.append(('rtureq', [bytes.fromhex('010600010002ffff'), bytes.fromhex('061029D0000102A0005332')]))
     for role, d in directed:
         for fin in ['eof', 'pending']:
             for mode in ['stop', 'resume', 'cancel']:
@@ -231,6 +232,82 @@ def run_client(ctx, cases):
     return bad, impl
 
 
+# ---------------------------------------------------------------- the RTU server across port re-opens
+def gen_reopen_cases(ctx, n):
+    """a bus carrying write-single-register requests for units 1, 2 (served), 6 (not served) and 0 (broadcast), some
+    of them corrupted, received over several port sessions (one read burst per session, so that nothing is lost
+    when a session ends; a session ends at the first framing error or at its EOF / I/O error)"""
+    r = ctx.rng
+    wsr = lambda u, a, v: fc.rtu_frame(u, bytes([6, a >> 8, a & 255, v >> 8, v & 255]))
+    # the independent seeded scenario: a bad-CRC frame for unit 1, then a VALID frame for unit 6 whose first bytes
+    # verify as a unit-1 PDU if the parser still remembers (unit 1, length 4)
+    bait = bytes.fromhex('061029D0000102A0005332')
+    bad1 = wsr(1, 1, 2)[:-2] + b'\xff\xff'
+    cases = [[('eof', [bad1 + bait])], [('eof', [bad1]), ('eof', [bait])], [('err', [bad1[:5]]), ('eof', [bad1[5:] + bait[:3]]), ('eof', [bait[3:]])]]
+    for u in (1, 2):
+        data = bytes(r.randrange(256) for _ in range(5))
+        stale = data + fc.rtu_frame(u, data)[-2:]                     # verifies only against the stale (unit u, length 4)
+        cases.append([('eof', [fc.corrupt(r, wsr(u, 3, 4), 'crc_hi_only')]), ('eof', [stale + wsr(2, 9, 9)])])
+    while len(cases) < n:
+        frames = []
+        for _ in range(r.choice([2, 3, 4, 6])):
+            f = wsr(r.choice([1, 2, 6, 0, 1, 2]), r.randrange(65536), r.randrange(65536))
+            k = r.random()
+            if k < 0.35:
+                f = fc.corrupt(r, f, r.choice(['1bit', '2bit', 'burst', 'crc_swapped', 'crc_hi_only', 'crc_lo_only', 'payload_byte']))
+            frames.append(f)
+        s = b''.join(frames)
+        cuts = sorted(set(r.randrange(1, len(s)) for _ in range(r.choice([0, 1, 2, 3]))))
+        cases.append([(r.choice(['eof', 'err']), [c]) for c in fc.split_at(s, cuts)])
+    return cases
+
+
+def expected_reopen(spec):
+    """handler calls, framing errors and number of replies the Spec's items prescribe (None if a frame is not a write-single-register)"""
+    calls, errs, replies = [], [], 0
+    for it in spec.split(' '):
+        if it.startswith('F('):
+            tx, dest, bc, payload = it[2:-1].split(',')
+            p = bytes.fromhex(payload)
+            d = int(dest)
+            if d not in (0, 1, 2):
+                continue                                  # a unit this server does not serve: no call, no reply, whatever the request
+            if len(p) != 5 or p[0] != 6:
+                return None
+            units = [1, 2] if d == 0 else [d] if d in (1, 2) else []
+            calls += ['u%d:wsr(%d,%d)' % (u, p[1] * 256 + p[2], p[3] * 256 + p[4]) for u in units]
+            replies += 1 if d in (1, 2) else 0
+        elif it.startswith('E('):
+            errs.append(it[2:-1])
+    return ';'.join(calls) or '-', errs, replies
+
+
+def run_reopen(ctx, cases):
+    line = lambda c: ' / '.join(' '.join([fin] + [x.hex() for x in ch]) for fin, ch in c)
+    impl = ctx.harness('rtu_reopen', [line(c) for c in cases], shards=8)
+    flat = [('rtureq', 'resume', 'eof', [x for fin, ch in c for x in ch]) for c in cases]
+    specs = [r[2] for r in fc.evaluate(ctx, flat)]
+    bad = skipped = 0
+    for c, i, spec in zip(cases, impl, specs):
+        exp = expected_reopen(spec)
+        if exp is None:
+            skipped += 1
+            continue
+        f = dict(kv.split('=', 1) for kv in i.split(' ')) if i not in ('PANIC', 'SPIN') else {'calls': i, 'replies': '-', 'ends': i}
+        errs = [e for e in f['ends'].split(';') if e.startswith('BadFrame') or e == 'Internal']
+        nrep = 0 if f['replies'] == '-' else len(f['replies'].split(','))
+        if f['calls'] != exp[0] or errs != exp[1] or nrep != exp[2] or not f['ends'].split(';')[-1].startswith('Io('):
+            bad += 1
+            if bad == 1:
+                extra_call = f['calls'] != exp[0]
+                ctx.violation('rtu-server.reopen.handler-called-for-a-frame-that-does-not-verify' if extra_call else 'rtu-server.reopen.sessions-differ-from-spec',
+                              f'RTU server, one session across port re-opens `{line(c)[:200]}`: handler calls {f["calls"][:160]} (the stream prescribes {exp[0][:160]}); '
+                              f'framing errors {errs} (prescribed {exp[1]}); the bus as the Spec cuts it: {spec[:200]}',
+                              {'cases': [{'reopen': [[fin, [x.hex() for x in ch]] for fin, ch in c]}], 'impl': i, 'spec': spec,
+                               'expected_calls': exp[0], 'harness_line': 'rtu_reopen: ' + line(c)})
+    return bad, skipped, impl
+
+
 def check_emitted(ctx, what, frames, sources, replay_cases=None):
     """every emitted frame = rtu_format of its own destination and PDU = the Spec's rtu_frame_of, and <= 256 bytes"""
     frames = [bytes.fromhex(f) for f in frames]
@@ -265,7 +342,7 @@ def run(ctx):
         ctx.coqchk()
     if not ctx.build_harness() or not models_ok:
         return
-    emit_lines = server_cases = client_cases = None
+    emit_lines = server_cases = client_cases = reopen_cases = None
     if ctx.replay and 'cases' in ctx.replay:
         cs = ctx.replay['cases']
         cases = [fc.case_from_json(c) for c in cs if not isinstance(c, dict)]
@@ -273,6 +350,7 @@ def run(ctx):
         emit_lines = [c['line'] for c in cs if isinstance(c, dict) and c.get('emit') == 'client']
         server_cases = [(c['fin'], [bytes.fromhex(x) for x in c['chunks']]) for c in cs if isinstance(c, dict) and 'server' in c]
         client_cases = [[([bytes.fromhex(x) for x in ch], fin) for ch, fin in c['client']] for c in cs if isinstance(c, dict) and 'client' in c]
+        reopen_cases = [[(fin, [bytes.fromhex(x) for x in ch]) for fin, ch in c['reopen']] for c in cs if isinstance(c, dict) and 'reopen' in c]
     else:
         cases, tags = gen_reader_cases(ctx, 800 if ctx.quick() else 6000)
     decode = (ctx.replay or {}).get('decode', 'min')
@@ -346,6 +424,13 @@ def run(ctx):
     if client_cases:
         ctx.oblige('correspondence:rtu-client-accepts-only-crc-verified-replies', bad_cl == 0, f'{bad_cl} mismatches over {len(client_cases)} histories')
 
+    # ---- the RTU server across port re-opens: one session, several port sessions; handler calls judged against the Spec
+    if reopen_cases is None:
+        reopen_cases = gen_reopen_cases(ctx, 300 if ctx.quick() else 3000)
+    bad_ro, skipped_ro, reopen_impl = run_reopen(ctx, reopen_cases) if reopen_cases else (0, 0, [])
+    if reopen_cases:
+        ctx.oblige('correspondence:rtu-server-across-port-reopens', bad_ro == 0, f'{bad_ro} mismatches over {len(reopen_cases)} lifecycles ({skipped_ro} not judged)')
+
     # ---- measured input classes
     classes = {}
     def bump(k, n=1):
@@ -367,6 +452,14 @@ def run(ctx):
             bump('buffer:full_with_1..7_consumed')        # end == capacity with begin in 1..7: compaction frees exactly that much
     for e, l in zip(emitted, emit_lines):
         bump('emit:' + l.split()[1] + (':refused' if e == 'ERR' else ''))
+    for c, i in zip(reopen_cases, reopen_impl):
+        bump('reopen:port_sessions=%d' % min(len(c), 4))
+        if 'BadFrame' in i and 'wsr' in i.split(' ends=')[0].split('BadFrame')[-1]:
+            pass
+        if 'BadFrame' in i:
+            bump('reopen:framing_error_then_reopen')
+        if 'wsr' in i:
+            bump('reopen:handler_called')
     for i in client_impl:
         for x in i.split(' / '):
             bump('client_result:' + x.split('(')[0])
@@ -375,12 +468,12 @@ def run(ctx):
     if not ctx.replay:
         need = (['corrupt:%s->rejected' % c for c in CLASSES] + ['stream:fc:%d' % f for f in fc.FCS] +
                 ['stream:exception_reply', 'stream:length_preserving', 'stream:length_changing', 'ending:Crc', 'ending:UnknownFunctionCode',
-                 'ending:FrameLengthTooBig', 'role:rtureq', 'role:rtursp', 'schedule:byte_per_byte', 'mode:resume', 'mode:cancel', 'cancel:abandoned_mid_frame', 'stream:stale_state_bait', 'buffer:full_with_1..7_consumed', 'client_result:Ok', 'client_result:BadFrame', 'client_result:Exception'])
+                 'ending:FrameLengthTooBig', 'role:rtureq', 'role:rtursp', 'schedule:byte_per_byte', 'mode:resume', 'mode:cancel', 'cancel:abandoned_mid_frame', 'stream:stale_state_bait', 'buffer:full_with_1..7_consumed', 'client_result:Ok', 'client_result:BadFrame', 'client_result:Exception', 'reopen:framing_error_then_reopen', 'reopen:handler_called'])
         missing = [k for k in need if classes.get(k, 0) < 3]
         ctx.oblige('generator-reaches-expected-classes', not missing, 'missing: ' + ','.join(missing))
     nontrivial = set(fc.to_line(c) for c, (t, _) in zip(cases, tags) if any(x.startswith('corrupt:') for x in t))
     ctx.coverage.update({
-        'evaluations': len(cases) + len(emit_lines) + len(server_cases) + len(client_cases),
+        'evaluations': len(cases) + len(emit_lines) + len(server_cases) + len(client_cases) + len(reopen_cases),
         'distinct_nontrivial': len(nontrivial) + len(set(e for e, _ in sent)),
         'rule': 'reader cases (role, stop/resume, ending, chunk list) from a seeded PRNG: directed list, then streams of 1-5 RTU frames of the eight functions / exception replies, '
                 'one of them corrupted (8 classes; every role x function x class combination first), x chunk schedules; non-trivial = stream contains a corrupted frame; '
